@@ -57,6 +57,36 @@ Proof.
   rewrite skipz_skipz by (pose proof (len_nonneg (tb c)); lia). reflexivity.
 Qed.
 
+(* what the template lemmas need of a cursor: it is well-formed and reads the rest of the input (the buffer before the
+   cursor may have been lower-cased) *)
+Definition binv (d : list Z) (z : lx) : Prop := lx_wf z /\ lx_len z = len d /\ rem z = skipz (lpos z) d.
+
+Lemma binv_of_inv d l : html_inv d l -> binv d (lz l).
+Proof. intros Hi. pose proof Hi as ((Hw & _) & Hlen & _). split; [exact Hw|]. split; [exact Hlen|apply rem_inv; exact Hi]. Qed.
+
+Lemma bzat_wf d l a : binv d (lz l) -> lpos (lz l) <= a <= len d -> lx_wf (zat l a) /\ rem (zat l a) = skipz a d.
+Proof.
+  intros (Hw & Hlen & Hrem0) Ha.
+  assert (E : zat l a = mv (lz l) (a - lpos (lz l))) by (unfold zat, mv; f_equal; lia).
+  destruct (rem_mv (lz l) (a - lpos (lz l)) Hw) as [Hr Hw']; [rewrite len_rem by exact Hw; lia|].
+  rewrite E. split; [exact Hw'|]. rewrite Hr, Hrem0.
+  assert (0 <= lpos (lz l)) by (destruct Hw as (_ & ? & _); lia).
+  rewrite skipz_skipz by lia. f_equal. lia.
+Qed.
+
+Lemma bregion_here c d l a : binv d (lz l) -> lpos (lz l) <= a <= len d -> tb c <> [] ->
+  prefixb (tb c) (skipz a d) = true -> is_region c d a (region_end_here c (zat l a)).
+Proof.
+  intros Hi Ha Htb Hpre. destruct (bzat_wf d l a Hi Ha) as [Hw Hrem].
+  pose proof Hi as (Hwl & _). assert (0 <= lpos (lz l)) by (destruct Hwl as (_ & ? & _); lia).
+  split; [lia|]. split; [exact Htb|]. split; [exact Hpre|].
+  unfold region_end_here. rewrite Hrem. cbn [zat lpos].
+  rewrite (region_len_fuel (te c) (length (skipz a d)) (length d)).
+  2: apply length_skipz_le'.
+  2: { eapply Nat.le_trans; [apply length_skipz_le'|apply length_skipz_le']. }
+  rewrite skipz_skipz by (pose proof (len_nonneg (tb c)); lia). reflexivity.
+Qed.
+
 Lemma is_region_fun c d p q q' : is_region c d p q -> is_region c d p q' -> q = q'.
 Proof. intros (_ & _ & _ & ->) (_ & _ & _ & ->). reflexivity. Qed.
 
@@ -74,8 +104,8 @@ Qed.
 (* ---- one iteration of the raw-text loop at a position --------------------------------------------------------------- *)
 (* a byte the scanner steps over: not a delimiter start, and if it is '<' then not "</" and (in script) not "<!" *)
 Definition raw_plain (c : cfg) (raw : Z) (d : list Z) (a : Z) : Prop :=
-  0 <= a < len d /\
-  ((getz d a <> 60 /\ prefixb (tb c) (skipz a d) = false) \/
+  0 <= a < len d /\ prefixb (tb c) (skipz a d) = false /\
+  (getz d a <> 60 \/
    (getz d a = 60 /\ getz d (a + 1) <> 47 /\
     (raw <> html_hash_Script \/ getz d (a + 1) <> 33 \/ getz d (a + 2) <> 45 \/ getz d (a + 3) <> 45))).
 
@@ -88,19 +118,14 @@ Definition end_tag_here_b (raw : Z) (d : list Z) (a : Z) : bool :=
   end.
 
 (* p is reached from a over plain bytes, whole regions, "</" + letters that is not the element's end tag (the scanner
-   jumps over the letters: a delimiter that starts inside them is not seen), and whole "<!--" ... "-->" sections of a
-   script (esc_end: the section is left by "-->" after n bytes; delimiters inside it are not looked for: known finding
-   c09-template:script-comment) *)
+   jumps over the letters: a delimiter that starts inside them is not seen).  ("<!--" sections of a script: see the
+   general theorem html_template_never_split, which covers every position at which the lexer looks.) *)
 Inductive raw_reach (c : cfg) (raw : Z) (d : list Z) : Z -> Z -> Prop :=
 | rr_refl a : raw_reach c raw d a a
 | rr_byte a p : raw_plain c raw d a -> raw_reach c raw d (a + 1) p -> raw_reach c raw d a p
 | rr_region a q p : is_region c d a q -> raw_reach c raw d q p -> raw_reach c raw d a p
-| rr_endtag a p : getz d a = 60 -> getz d (a + 1) = 47 -> end_tag_here_b raw d a = false ->
-    raw_reach c raw d (a + 2 + len (letter_run (skipz (a + 2) d))) p -> raw_reach c raw d a p
-| rr_section a n p : raw = html_hash_Script ->
-    getz d a = 60 -> getz d (a + 1) = 33 -> getz d (a + 2) = 45 -> getz d (a + 3) = 45 ->
-    esc_end (length (skipz (a + 4) d)) false (skipz (a + 4) d) = (n, false) ->
-    raw_reach c raw d (a + 4 + n) p -> raw_reach c raw d a p.
+| rr_endtag a p : prefixb (tb c) (skipz a d) = false -> getz d a = 60 -> getz d (a + 1) = 47 -> end_tag_here_b raw d a = false ->
+    raw_reach c raw d (a + 2 + len (letter_run (skipz (a + 2) d))) p -> raw_reach c raw d a p.
 
 Lemma getz_nz_range (d : list Z) a x : getz d a = x -> x <> 0 -> 0 <= a < len d.
 Proof.
@@ -110,19 +135,27 @@ Qed.
 Lemma at_end_zat d l a : html_inv d l -> a < len d -> at_end (zat l a) = false.
 Proof. intros (_ & Hlen & _) Ha. unfold at_end, zat, lx_len in *. cbn [lbuf lpos]. apply Z.leb_gt. lia. Qed.
 
-Lemma raw_step_plain c raw d l a h x t : cfg_ok c -> html_inv d l -> tb c = x :: t -> x <> 60 ->
+(* l.skipTemplate() at a position of the input *)
+Lemma skip_zat_none c d l a : cfg_ok c -> html_inv d l -> lpos (lz l) <= a <= len d ->
+  prefixb (tb c) (skipz a d) = false -> skip_tmpl c (zat l a) = Ok None.
+Proof.
+  intros Hc Hi Ha Hpre. destruct (zat_wf d l a Hi Ha) as [Hw Hrem].
+  unfold skip_tmpl, tmpl_at. destruct (has_delims c); [|reflexivity].
+  rewrite at_rem by (apply Hc || exact Hw). rewrite Hrem, Hpre. reflexivity.
+Qed.
+
+Lemma raw_step_plain c raw d l a h : cfg_ok c -> html_inv d l ->
   lpos (lz l) <= a -> raw_plain c raw d a ->
   rawtext_body c raw (zat l a, h) = Ok (Cont (zat l (a + 1), h)).
 Proof.
-  intros Hc Hi Etb Hx Ha ((Ha0 & Ha1) & Hcase).
+  intros Hc Hi Ha ((Ha0 & Ha1) & Hpre & Hcase).
   destruct (zat_wf d l a Hi ltac:(lia)) as [Hw Hrem].
   unfold rawtext_body. rewrite (zat_pkr d l a 0 Hi) by lia. rewrite Z.add_0_r. cbn [rbind].
-  destruct Hcase as [(H60 & Hpre)|(H60 & H47 & Hsc)].
+  rewrite (skip_zat_none c d l a Hc Hi ltac:(lia) Hpre). cbn [rbind].
+  destruct Hcase as [H60|(H60 & H47 & Hsc)].
   - replace (getz d a =? 60) with false by (symmetry; apply Z.eqb_neq; exact H60).
-    unfold tmpl_at. replace (has_delims c) with true by (unfold has_delims; rewrite Etb; reflexivity).
-    rewrite at_rem by (apply Hc || exact Hw). rewrite Hrem, Hpre. cbn [rbind].
     unfold eof0. rewrite (at_end_zat d l a Hi Ha1), andb_false_r. reflexivity.
-  - rewrite H60. cbn [Z.eqb]. rewrite (zat_pkr d l a 1 Hi) by lia. cbn [rbind].
+  - rewrite H60. cbn [Z.eqb Pos.eqb]. rewrite (zat_pkr d l a 1 Hi) by lia. cbn [rbind].
     replace (getz d (a + 1) =? 47) with false by (symmetry; apply Z.eqb_neq; exact H47).
     assert (Hscv : (if (raw =? html_hash_Script) && (getz d (a + 1) =? 33)
                     then c2 <-- pkr (zat l a) 2;; (if c2 =? 45 then c3 <-- pkr (zat l a) 3;; Ok (c3 =? 45) else Ok false)
@@ -137,35 +170,48 @@ Proof.
     rewrite Hscv. cbn [rbind]. reflexivity.
 Qed.
 
-Lemma raw_step_region c raw d l a q h x t : cfg_ok c -> html_inv d l -> tb c = x :: t -> x <> 60 ->
+(* the delimiter and the region at position p of the input, as the cursor sees them *)
+Lemma tmpl_here c d l p q : cfg_ok c -> html_inv d l -> lpos (lz l) <= p -> is_region c d p q ->
+  at_ (zat l p) (tb c) = Ok true /\ tmpl_skip c (zat l p) = Ok (zat l q) /\ p < q <= len d.
+Proof.
+  intros Hc Hi Ha Hreg. destruct (is_region_in _ _ _ _ Hreg) as [Hin Hlt]. pose proof (inv_pos0 d l Hi) as Hp0.
+  pose proof Hreg as (_ & Htb & Hpre & _).
+  assert (Hlt0 : 0 < len (tb c)) by (destruct (tb c) as [|x t]; [congruence|rewrite len_cons; pose proof (len_nonneg t); lia]).
+  destruct (zat_wf d l p Hi ltac:(lia)) as [Hw Hrem].
+  assert (Hpre' : prefixb (tb c) (rem (zat l p)) = true) by (rewrite Hrem; exact Hpre).
+  destruct (tmpl_skip_here c (zat l p) Hc Hw Hpre') as [Hsk Hle].
+  assert (Eq : region_end_here c (zat l p) = q).
+  { eapply is_region_fun; [|exact Hreg]. apply region_here; [exact Hi|lia|exact Htb|exact Hpre]. }
+  rewrite Eq in *. pose proof Hi as (_ & Hlen & _).
+  split; [rewrite at_rem by (apply Hc || exact Hw); rewrite Hpre'; reflexivity|].
+  split; [exact Hsk|unfold lx_len, zat in *; cbn [lbuf] in *; lia].
+Qed.
+
+Lemma skip_zat_here c d l p q : cfg_ok c -> html_inv d l -> lpos (lz l) <= p -> is_region c d p q ->
+  skip_tmpl c (zat l p) = Ok (Some (zat l q)) /\ p < q <= len d.
+Proof.
+  intros Hc Hi Ha Hreg. destruct (tmpl_here c d l p q Hc Hi Ha Hreg) as (Hat & Hsk & Hq). split; [|exact Hq].
+  unfold skip_tmpl, tmpl_at. replace (has_delims c) with true by (destruct Hreg as (_ & Htb & _); unfold has_delims; destruct (tb c); congruence).
+  rewrite Hat. cbn [rbind]. rewrite Hsk. reflexivity.
+Qed.
+
+Lemma raw_step_region c raw d l a q h : cfg_ok c -> html_inv d l ->
   lpos (lz l) <= a -> is_region c d a q ->
   rawtext_body c raw (zat l a, h) = Ok (Cont (zat l q, true)) /\ a < q <= len d.
 Proof.
-  intros Hc Hi Etb Hx Ha Hreg. destruct (is_region_in _ _ _ _ Hreg) as [Hin Hlt]. pose proof (inv_pos0 d l Hi) as Hp0.
-  assert (Hlt0 : 0 < len (tb c)) by (rewrite Etb, len_cons; pose proof (len_nonneg t); lia).
-  destruct (zat_wf d l a Hi ltac:(lia)) as [Hw Hrem].
-  pose proof Hreg as (_ & Htb & Hpre & _).
-  assert (Hpre' : prefixb (tb c) (rem (zat l a)) = true) by (rewrite Hrem; exact Hpre).
-  destruct (tmpl_skip_here c (zat l a) Hc Hw Hpre') as [Hsk Hle].
-  assert (Eq : region_end_here c (zat l a) = q).
-  { eapply is_region_fun; [|exact Hreg]. apply region_here; [exact Hi|lia|exact Htb|exact Hpre]. }
-  rewrite Eq in *.
-  pose proof Hi as (_ & Hlen & _). split; [|unfold lx_len, zat in *; cbn [lbuf] in *; lia].
-  assert (Hc0 : getz d a = x).
-  { rewrite Etb in Hpre. apply prefixb_head in Hpre. destruct Hpre as [s' Es].
-    unfold getz. rewrite <- (Z.add_0_r a), <- peekz_skipz by lia. rewrite Es, peekz_cons_0. reflexivity. }
-  unfold rawtext_body. rewrite (zat_pkr d l a 0 Hi) by lia. rewrite Z.add_0_r, Hc0. cbn [rbind].
-  replace (x =? 60) with false by (symmetry; apply Z.eqb_neq; exact Hx).
-  unfold tmpl_at. replace (has_delims c) with true by (unfold has_delims; rewrite Etb; reflexivity).
-  rewrite at_rem by (apply Hc || exact Hw). rewrite Hpre'. cbn [rbind]. rewrite Hsk. cbn [rbind]. reflexivity.
+  intros Hc Hi Ha Hreg. destruct (skip_zat_here c d l a q Hc Hi Ha Hreg) as [Hsk Hq]. split; [|exact Hq].
+  destruct (is_region_in _ _ _ _ Hreg) as [Hin _]. pose proof (inv_pos0 d l Hi) as Hp0.
+  assert (Hlt0 : 0 < len (tb c)) by (destruct Hreg as (_ & Htb & _); destruct (tb c) as [|x t]; [congruence|rewrite len_cons; pose proof (len_nonneg t); lia]).
+  unfold rawtext_body. rewrite (zat_pkr d l a 0 Hi) by lia. cbn [rbind]. rewrite Hsk. reflexivity.
 Qed.
 
-Lemma raw_step_endtag c raw d l a h : html_inv d l -> lpos (lz l) <= a ->
+Lemma raw_step_endtag c raw d l a h : cfg_ok c -> html_inv d l -> lpos (lz l) <= a ->
+  prefixb (tb c) (skipz a d) = false ->
   getz d a = 60 -> getz d (a + 1) = 47 -> end_tag_here_b raw d a = false ->
   rawtext_body c raw (zat l a, h) = Ok (Cont (zat l (a + 2 + len (letter_run (skipz (a + 2) d))), h)) /\
   a < a + 2 + len (letter_run (skipz (a + 2) d)) <= len d.
 Proof.
-  intros Hi Ha H60 H47 Hnot. pose proof (inv_pos0 d l Hi) as Hp0.
+  intros Hc Hi Ha Hnp H60 H47 Hnot. pose proof (inv_pos0 d l Hi) as Hp0.
   pose proof (getz_nz_range d a 60 H60 ltac:(lia)) as Ra. pose proof (getz_nz_range d (a + 1) 47 H47 ltac:(lia)) as Ra1.
   destruct (zat_wf d l a Hi ltac:(lia)) as [Hw Hrem]. assert (Hr : reads (zat l a) (skipz a d)) by (split; assumption).
   assert (Hls : len (skipz a d) = len d - a) by (apply len_skipz; lia).
@@ -173,7 +219,8 @@ Proof.
   rewrite skipz_skipz in Hll, Hh, Hr2, Hle by lia.
   set (ls := letter_run (skipz (a + 2) d)) in *. pose proof (len_nonneg ls) as Hl0.
   split; [|lia].
-  unfold rawtext_body. rewrite (zat_pkr d l a 0 Hi) by lia. rewrite Z.add_0_r, H60. cbn [rbind Z.eqb Pos.eqb].
+  unfold rawtext_body. rewrite (zat_pkr d l a 0 Hi) by lia. rewrite Z.add_0_r, H60. cbn [rbind].
+  rewrite (skip_zat_none c d l a Hc Hi ltac:(lia) Hnp). cbn [rbind Z.eqb Pos.eqb].
   rewrite (zat_pkr d l a 1 Hi) by lia. rewrite H47. cbn [rbind Z.eqb Pos.eqb].
   rewrite Hll. cbn [rbind]. rewrite Hh.
   unfold end_tag_here_b in Hnot. fold ls in Hnot.
@@ -183,33 +230,6 @@ Proof.
   destruct (reads_follow _ _ Hr2) as (cz & Hcz & Hfol). rewrite Hcz. cbn [rbind]. rewrite Hfol, Hnot. reflexivity.
 Qed.
 
-Lemma raw_step_section c d l a n h : html_inv d l -> lpos (lz l) <= a ->
-  getz d a = 60 -> getz d (a + 1) = 33 -> getz d (a + 2) = 45 -> getz d (a + 3) = 45 ->
-  esc_end (length (skipz (a + 4) d)) false (skipz (a + 4) d) = (n, false) ->
-  rawtext_body c html_hash_Script (zat l a, h) = Ok (Cont (zat l (a + 4 + n), h)) /\ a < a + 4 + n <= len d.
-Proof.
-  intros Hi Ha H0 H1 H2 H3 He. pose proof (inv_pos0 d l Hi) as Hp0.
-  pose proof (getz_nz_range d a 60 H0 ltac:(lia)) as R0. pose proof (getz_nz_range d (a + 1) 33 H1 ltac:(lia)) as R1.
-  pose proof (getz_nz_range d (a + 2) 45 H2 ltac:(lia)) as R2. pose proof (getz_nz_range d (a + 3) 45 H3 ltac:(lia)) as R3.
-  destruct (zat_wf d l (a + 4) Hi ltac:(lia)) as [Hw4 Hrem4]. assert (Hr4 : reads (zat l (a + 4)) (skipz (a + 4) d)) by (split; assumption).
-  pose proof Hi as (_ & Hlen & _).
-  assert (Hfuel : (length (skipz (a + 4) d) < fuel_of (zat l a))%nat).
-  { assert (len (skipz (a + 4) d) = len d - (a + 4)) by (apply len_skipz; lia). unfold fuel_of, lx_len, zat, len in *. cbn [lbuf lpos] in *. lia. }
-  pose proof (esc_run (length (skipz (a + 4) d)) (skipz (a + 4) d) (zat l (a + 4)) false (fuel_of (zat l a)) (le_n _) Hr4 Hfuel) as Hrun.
-  rewrite He in Hrun.
-  assert (Hn : 0 <= n /\ a + 4 + n <= len d).
-  { destruct (safe_inv _ _ (script_comment_spec (zat l (a + 4)) false Hw4 (fuel_of (zat l a)) ltac:(unfold fuel_of, lx_len, zat; cbn [lbuf lpos]; lia))) as (rr & Err & Hadv).
-    rewrite Hrun in Err. injection Err as <-. cbn [sum_adv] in Hadv. destruct Hadv as (_ & _ & A3).
-    unfold lx_len, zat, mv in *. cbn [lbuf lpos] in *. lia. }
-  split; [|lia].
-  unfold rawtext_body. rewrite (zat_pkr d l a 0 Hi) by lia. rewrite Z.add_0_r, H0. cbn [rbind Z.eqb Pos.eqb].
-  rewrite (zat_pkr d l a 1 Hi) by lia. rewrite H1. cbn [rbind Z.eqb Pos.eqb].
-  change (html_hash_Script =? html_hash_Script) with true. cbn [andb].
-  rewrite (zat_pkr d l a 2 Hi) by lia. rewrite H2. cbn [rbind Z.eqb Pos.eqb].
-  rewrite (zat_pkr d l a 3 Hi) by lia. rewrite H3. cbn [rbind Z.eqb Pos.eqb].
-  replace (mv (zat l a) 4) with (zat l (a + 4)) by reflexivity. rewrite Hrun. cbn [rbind].
-  replace (mv (zat l (a + 4)) n) with (zat l (a + 4 + n)) by (unfold zat, mv; cbn [lbuf lpos lstart]; reflexivity). reflexivity.
-Qed.
 
 Lemma loop_step {S R} (body : S -> res (lp S R)) fuel s s' r :
   body s = Ok (Cont s') -> loop fuel body s' = Ok r -> loop (Datatypes.S fuel) body s = Ok r.
@@ -225,49 +245,44 @@ Proof.
   unfold fuel_of, zat. cbn [lbuf lpos]. lia.
 Qed.
 
-Lemma raw_reach_loop c raw d l x t : cfg_ok c -> html_inv d l -> tb c = x :: t -> x <> 60 ->
+Lemma raw_reach_loop c raw d l : cfg_ok c -> html_inv d l ->
   forall a p, raw_reach c raw d a p -> lpos (lz l) <= a <= len d ->
   a <= p <= len d /\
   forall h, exists h', (h = true -> h' = true) /\
     forall r, loop (fuel_of (zat l p)) (rawtext_body c raw) (zat l p, h') = Ok r ->
               loop (fuel_of (zat l a)) (rawtext_body c raw) (zat l a, h) = Ok r.
 Proof.
-  intros Hc Hi Etb Hx a p Hr. induction Hr as [a|a p Hpl Hr IH|a q p Hreg Hr IH|a p E60 E47 Hnot Hr IH|a n p Eraw E0 E1 E2 E3 Hesc Hr IH]; intros Ha.
+  intros Hc Hi a p Hr. induction Hr as [a|a p Hpl Hr IH|a q p Hreg Hr IH|a p Hnp E60 E47 Hnot Hr IH]; intros Ha.
   - split; [lia|]. intros h. exists h. split; [tauto|]. intros r Hl. exact Hl.
   - pose proof Hpl as ((_ & Ha1) & _). destruct (IH ltac:(lia)) as [Hp IH'].
     split; [lia|]. intros h. destruct (IH' h) as (h' & Hh & Hl). exists h'. split; [exact Hh|].
     intros r Hlr. eapply (zat_loop_step _ d l a (a + 1)); [exact Hi|lia|lia| |apply Hl; exact Hlr].
-    apply (raw_step_plain c raw d l a h x t); assumption || lia.
-  - destruct (raw_step_region c raw d l a q true x t Hc Hi Etb Hx ltac:(lia) Hreg) as [_ Hq].
+    apply (raw_step_plain c raw d l a h); assumption || lia.
+  - destruct (raw_step_region c raw d l a q true Hc Hi ltac:(lia) Hreg) as [_ Hq].
     destruct (IH ltac:(lia)) as [Hp IH'].
     split; [lia|]. intros h. destruct (IH' true) as (h' & Hh & Hl). exists h'. split; [intros _; apply Hh; reflexivity|].
-    intros r Hlr. destruct (raw_step_region c raw d l a q h x t Hc Hi Etb Hx ltac:(lia) Hreg) as [Hb _].
+    intros r Hlr. destruct (raw_step_region c raw d l a q h Hc Hi ltac:(lia) Hreg) as [Hb _].
     eapply (zat_loop_step _ d l a q); [exact Hi|lia|lia|exact Hb|apply Hl; exact Hlr].
-  - destruct (raw_step_endtag c raw d l a true Hi ltac:(lia) E60 E47 Hnot) as [_ Hq].
+  - destruct (raw_step_endtag c raw d l a true Hc Hi ltac:(lia) Hnp E60 E47 Hnot) as [_ Hq].
     destruct (IH ltac:(lia)) as [Hp IH'].
     split; [lia|]. intros h. destruct (IH' h) as (h' & Hh & Hl). exists h'. split; [exact Hh|].
-    intros r Hlr. destruct (raw_step_endtag c raw d l a h Hi ltac:(lia) E60 E47 Hnot) as [Hb _].
-    eapply (zat_loop_step _ d l a _); [exact Hi|lia|exact Hq|exact Hb|apply Hl; exact Hlr].
-  - subst raw. destruct (raw_step_section c d l a n true Hi ltac:(lia) E0 E1 E2 E3 Hesc) as [_ Hq].
-    destruct (IH ltac:(lia)) as [Hp IH'].
-    split; [lia|]. intros h. destruct (IH' h) as (h' & Hh & Hl). exists h'. split; [exact Hh|].
-    intros r Hlr. destruct (raw_step_section c d l a n h Hi ltac:(lia) E0 E1 E2 E3 Hesc) as [Hb _].
+    intros r Hlr. destruct (raw_step_endtag c raw d l a h Hc Hi ltac:(lia) Hnp E60 E47 Hnot) as [Hb _].
     eapply (zat_loop_step _ d l a _); [exact Hi|lia|exact Hq|exact Hb|apply Hl; exact Hlr].
 Qed.
 
 (* ---- (v') a region reached over plain bytes and earlier regions lies inside the Text token ------------------------ *)
 Lemma html_template_rawtext_reach_proof : forall c d l p q, cfg_ok c -> html_inv d l -> intag l = false ->
-  rawtag l <> 0 -> rawtag l <> html_hash_Plaintext -> (exists x t, tb c = x :: t /\ x <> 60) ->
+  rawtag l <> 0 -> rawtag l <> html_hash_Plaintext ->
   raw_reach c (rawtag l) d (lpos (lz l)) p -> is_region c d p q ->
   exists v l', next c l = Ok (TextT, Some v, l') /\ lhas l' = true /\ so v = lpos (lz l) /\ q <= so v + sn v.
 Proof.
-  intros c d l p q Hc Hi Hit Hraw Hnpl (x & t & Etb & Hx60) Hreach Hreg.
+  intros c d l p q Hc Hi Hit Hraw Hnpl Hreach Hreg.
   pose proof Hi as (Hl & Hlen & Hsuf & _). pose proof Hl as [Hw _].
   pose proof (lwf_clean l Hl Hit) as Hcl.
   assert (Hpos : lpos (lz l) <= lpos (lz l) <= len d) by (destruct Hw as (_ & ? & ?); lia).
-  destruct (raw_reach_loop c (rawtag l) d l x t Hc Hi Etb Hx60 _ _ Hreach Hpos) as [Hp Hloop].
+  destruct (raw_reach_loop c (rawtag l) d l Hc Hi _ _ Hreach Hpos) as [Hp Hloop].
   destruct (Hloop false) as (h' & _ & Hl1).
-  destruct (raw_step_region c (rawtag l) d l p q h' x t Hc Hi Etb Hx60 ltac:(lia) Hreg) as [Hb Hq].
+  destruct (raw_step_region c (rawtag l) d l p q h' Hc Hi ltac:(lia) Hreg) as [Hb Hq].
   destruct (zat_wf d l q Hi ltac:(lia)) as [Hwq _].
   destruct (safe_inv _ _ (rawtext_loop_spec c (rawtag l) (zat l q) true Hc Hwq)) as (r & Er & Har).
   pose proof (rawtext_loop_has _ _ _ _ _ Er eq_refl) as Hhas.
@@ -285,6 +300,29 @@ Proof.
 Qed.
 
 (* ---- (v'') the converse: HasTemplate() = true on the raw-text token only if a region lies inside it --------------- *)
+(* skipping a template at a cursor s at or after the call's cursor: the region is a declarative one *)
+Lemma tmpl_region_step c d l : cfg_ok c -> tb c <> [] -> html_inv d l -> forall s z' (h : bool),
+  samele (lz l) s -> tmpl_at c s = Ok true -> tmpl_skip c s = Ok z' ->
+  samele (lz l) z' /\ (true = true -> exists p q, lpos (lz l) <= p /\ q <= lpos z' /\ is_region c d p q).
+Proof.
+  intros Hc Htb Hi s z' h [Hsm Hle] Hat Hsk. pose proof Hi as ((Hw & _) & Hlen & _). pose proof (inv_pos0 d l Hi) as H0.
+  unfold tmpl_at in Hat. replace (has_delims c) with true in Hat by (unfold has_delims; destruct (tb c); congruence).
+  assert (Ha : lpos s <= len d).
+  { apply at_from_buf in Hat; [|exact Htb]. rewrite Z.add_0_r in Hat. destruct Hsm as [Hb _]. rewrite Hb in Hat.
+    destruct (tb c) as [|x t] eqn:E; [congruence|]. symmetry in Hat. apply prefixb_head in Hat. destruct Hat as [s' Es].
+    destruct (Z.le_gt_cases (lpos s) (len d)) as [?|Hgt]; [assumption|exfalso].
+    assert (E0 : skipz (lpos s) (lbuf (lz l)) = []) by (unfold skipz; apply skipn_all2; unfold lx_len, len in *; lia).
+    congruence. }
+  rewrite (same_zat l s Hsm) in Hat, Hsk.
+  destruct (zat_wf d l (lpos s) Hi ltac:(lia)) as [Hws Hrem].
+  rewrite at_rem in Hat by (apply Hc || exact Hws). injection Hat as Hpre.
+  destruct (tmpl_skip_here c _ Hc Hws Hpre) as [Hsk' Hle']. rewrite Hsk' in Hsk. injection Hsk as <-.
+  pose proof (region_here c d l (lpos s) Hi ltac:(lia) Htb ltac:(rewrite <- Hrem; exact Hpre)) as Hreg.
+  destruct (is_region_in _ _ _ _ Hreg) as [_ Hlt].
+  split; [split; [split; reflexivity|cbn [lpos]; lia]|].
+  intros _. exists (lpos s), (region_end_here c (zat l (lpos s))). cbn [lpos]. split; [lia|]. split; [lia|exact Hreg].
+Qed.
+
 Lemma rawtext_loop_regions c raw d l fuel r : cfg_ok c -> tb c <> [] -> html_inv d l ->
   loop fuel (rawtext_body c raw) (lz l, false) = Ok r -> snd r = true ->
   exists p q, lpos (lz l) <= p /\ q <= lpos (fst r) /\ is_region c d p q.
@@ -301,6 +339,26 @@ Proof.
     exists p, q. destruct Hs' as [_ ?]. split; [assumption|split; [lia|assumption]]. }
   unfold rawtext_body in Hx.
   destruct (pkr s 0) as [c0| |] eqn:E0; cbn [rbind] in Hx; try discriminate.
+  unfold skip_tmpl in Hx.
+  destruct (tmpl_at c s) as [t| |] eqn:Et; cbn [rbind] in Hx; try discriminate.
+  destruct t.
+  { destruct (tmpl_skip c s) as [z'| |] eqn:Ez'; cbn [rbind] in Hx; try discriminate. injection Hx as <-.
+    (* the cursor is inside the input *)
+    assert (Hp0 : pk s 0 = Some c0) by (unfold pkr in E0; destruct (pk s 0); cbn in E0; congruence).
+    destruct Hs as [Hsm Hle].
+    assert (Ha : lpos s <= len d).
+    { unfold pk in Hp0. apply peekz_some in Hp0. destruct Hsm as [Hb _]. rewrite Hb in Hp0. unfold lx_len in Hlen. lia. }
+    rewrite (same_zat l s Hsm) in Et, Ez'.
+    destruct (zat_wf d l (lpos s) Hi ltac:(lia)) as [Hws Hrem].
+    unfold tmpl_at in Et. replace (has_delims c) with true in Et by (unfold has_delims; destruct (tb c); congruence).
+    rewrite at_rem in Et by (apply Hc || exact Hws). injection Et as Hpre.
+    destruct (tmpl_skip_here c _ Hc Hws Hpre) as [Hsk Hle']. rewrite Hsk in Ez'. injection Ez' as <-.
+    pose proof (region_here c d l (lpos s) Hi ltac:(lia) Htb ltac:(rewrite <- Hrem; exact Hpre)) as Hreg'.
+    destruct (is_region_in _ _ _ _ Hreg') as [_ Hlt].
+    split; cbn [fst snd].
+    * split; [split; reflexivity|cbn [lpos]; lia].
+    * intros _. exists (lpos s), (region_end_here c (zat l (lpos s))). cbn [lpos]. split; [lia|]. split; [lia|exact Hreg']. }
+  cbn [rbind] in Hx.
   destruct (c0 =? 60).
   - destruct (pkr s 1) as [c1| |]; cbn [rbind] in Hx; try discriminate.
     destruct (c1 =? 47).
@@ -317,69 +375,26 @@ Proof.
                 then c2 <-- pkr s 2;; (if c2 =? 45 then c3 <-- pkr s 3;; Ok (c3 =? 45) else Ok false)
                 else Ok false) as [sc| |]; cbn [rbind] in Hx; try discriminate.
       destruct sc; [|injection Hx as <-; apply Hkeep, samele_mv; lia].
-      destruct (loop (fuel_of s) script_comment_body (mv s 4, false)) as [r2| |] eqn:Er2; cbn [rbind] in Hx; try discriminate.
-      pose proof (script_comment_run _ _ _ _ Er2) as Hr2.
-      destruct r2 as [z'|z']; injection Hx as <-; apply Hkeep.
-      * eapply samele_trans; [apply (samele_mv s 4); lia|exact Hr2].
-      * eapply samele_trans; [apply (samele_mv s 4); lia|apply Hr2].
-  - destruct (tmpl_at c s) as [t| |] eqn:Et; cbn [rbind] in Hx; try discriminate.
-    destruct t.
-    + destruct (tmpl_skip c s) as [z'| |] eqn:Ez'; cbn [rbind] in Hx; try discriminate. injection Hx as <-.
-      (* the cursor is inside the input *)
-      assert (Hp0 : pk s 0 = Some c0) by (unfold pkr in E0; destruct (pk s 0); cbn in E0; congruence).
-      destruct Hs as [Hsm Hle].
-      assert (Ha : lpos s <= len d).
-      { unfold pk in Hp0. apply peekz_some in Hp0. destruct Hsm as [Hb _]. rewrite Hb in Hp0. unfold lx_len in Hlen. lia. }
-      rewrite (same_zat l s Hsm) in Et, Ez'.
-      destruct (zat_wf d l (lpos s) Hi ltac:(lia)) as [Hws Hrem].
-      unfold tmpl_at in Et. replace (has_delims c) with true in Et by (unfold has_delims; destruct (tb c); congruence).
-      rewrite at_rem in Et by (apply Hc || exact Hws). injection Et as Hpre.
-      destruct (tmpl_skip_here c _ Hc Hws Hpre) as [Hsk Hle']. rewrite Hsk in Ez'. injection Ez' as <-.
-      pose proof (region_here c d l (lpos s) Hi ltac:(lia) Htb ltac:(rewrite <- Hrem; exact Hpre)) as Hreg'.
-      destruct (is_region_in _ _ _ _ Hreg') as [_ Hlt].
-      split; cbn [fst snd].
-      * split; [split; reflexivity|cbn [lpos]; lia].
-      * intros _. exists (lpos s), (region_end_here c (zat l (lpos s))). cbn [lpos]. split; [lia|]. split; [lia|exact Hreg'].
-    + destruct (eof0 s c0); injection Hx as <-; [apply Hkeep, samele_refl|apply Hkeep, samele_mv; lia].
+      destruct (loop (fuel_of s) (script_comment_loop_body c) (mv s 4, false, h0)) as [[r2 h2]| |] eqn:Er2; cbn [rbind] in Hx; try discriminate.
+      (* the inner loop keeps the invariant *)
+      assert (HI2 : I (match r2 with inl z' => z' | inr z' => z' end, h2)).
+      { unfold script_comment_loop_body in Er2.
+        refine (with_tmpl_inv c _ _ (fun sh : lx * bool * bool => I (fst (fst sh), snd sh))
+                  (fun r : (lx + lx) * bool => I (match fst r with inl z' => z' | inr z' => z' end, snd r))
+                  script_comment_body _ _ _ (mv s 4, false, h0) (r2, h2) _ Er2).
+        - intros [s1 i1] h1 z' [Hs1 _] Hat Hk. cbn [fst snd] in *.
+          apply (tmpl_region_step c d l Hc Htb Hi s1 z' h1 Hs1 Hat Hk).
+        - intros [s1 i1] h1 x1 [Hs1 Hr1] Hx1. cbn [fst snd] in *.
+          pose proof (script_comment_step_run s1 (s1, i1) x1 (samele_refl s1) Hx1) as Hp.
+          assert (Hk1 : forall s', samele s1 s' -> I (s', h1)).
+          { intros s' Hs'. split; [eapply samele_trans; eauto|]. cbn [fst snd]. intros Hh. destruct (Hr1 Hh) as (p & q & ? & ? & ?).
+            exists p, q. destruct Hs' as [_ ?]. split; [assumption|split; [lia|assumption]]. }
+          destruct x1 as [[s2 i2]|[z2|z2]]; cbn [fst snd] in *; [apply Hk1; exact Hp|apply Hk1; exact Hp|apply Hk1; apply Hp].
+        - cbn [fst snd]. apply Hkeep. apply samele_mv; lia. }
+      destruct r2 as [z'|z']; injection Hx as <-; exact HI2.
+  - destruct (eof0 s c0); injection Hx as <-; [apply Hkeep, samele_refl|apply Hkeep, samele_mv; lia].
 Qed.
 
-Lemma html_template_rawtext_converse_proof : forall c d l ty tk l', cfg_ok c -> tb c <> [] -> html_inv d l ->
-  intag l = false -> rawtag l <> 0 ->
-  lpos (lz l) < len d -> ~ end_tag_at (rawtag l) (d ++ [0]) (lpos (lz l)) ->        (* the content is not empty *)
-  next c l = Ok (ty, tk, l') -> lhas l' = true ->
-  exists p q, lpos (lz l) <= p /\ q <= lpos (lz l') /\ is_region c d p q.
-Proof.
-  intros c d l ty tk l' Hc Htb Hi Hit Hraw Hne Hnoend Hn Hhas.
-  pose proof Hi as (Hl & Hlen & Hsuf & _). pose proof Hl as [Hw _].
-  pose proof (lwf_clean l Hl Hit) as Hcl.
-  assert (H0 : 0 <= lpos (lz l)) by (destruct Hw as (_ & ? & _); lia).
-  unfold next in Hn. cbn [lz rawtag intag lerr ltext lattr lhas] in Hn. rewrite Hit in Hn.
-  replace (negb (rawtag l =? 0)) with true in Hn by (symmetry; apply negb_true_iff; apply Z.eqb_neq; exact Hraw).
-  unfold shift_rawtext in Hn.
-  destruct (rawtag l =? html_hash_Plaintext) eqn:Epl.
-  - exfalso. destruct (safe_inv _ _ (plaintext_loop_spec _ Hw)) as (zp & Ez & Ha). rewrite Ez in Hn. cbn [rbind] in Hn.
-    pose proof (plaintext_loop_run _ _ _ Ez) as Hend. apply at_end_true in Hend; [|eauto using adv_wf].
-    rewrite (adv_len _ _ Ha), Hlen in Hend.
-    rewrite shiftv_spec in Hn by eauto using adv_wf. cbn [rbind fst snd] in Hn.
-    destruct Ha as (A1 & A2 & A3). cbn [sn] in Hn.
-    replace (0 <? lpos zp - lstart zp) with true in Hn by (symmetry; apply Z.ltb_lt; lia).
-    injection Hn as <- <- <-. cbn [lhas] in Hhas. discriminate.
-  - destruct (safe_inv _ _ (rawtext_loop_spec c (rawtag l) (lz l) false Hc Hw)) as (s & Es & Ha). rewrite Es in Hn. cbn [rbind] in Hn.
-    destruct (rawtext_loop_run _ _ _ _ _ _ Es) as (_ & _ & Hend & _).
-    rewrite shiftv_spec in Hn by eauto using adv_wf. cbn [rbind fst snd] in Hn.
-    pose proof Ha as (A1 & A2 & A3). rewrite Hlen in A3.
-    assert (Hlt : lpos (lz l) < lpos (fst s)).
-    { destruct (Z.eq_dec (lpos (fst s)) (lpos (lz l))) as [E|E]; [exfalso|lia].
-      destruct Hend as [Hend|Hend].
-      - apply at_end_true in Hend; [|eauto using adv_wf]. rewrite (adv_len _ _ Ha), Hlen in Hend. lia.
-      - apply Hnoend. rewrite <- E.
-        assert (Hblen : len (lbuf (lz l)) = len (d ++ [0])).
-        { pose proof (lx_wf_len _ Hw) as [Hbl _]. rewrite len_app. change (len [0]) with 1. lia. }
-        eapply (end_tag_at_ext true _ _ _ (lpos (lz l))); eauto. lia. }
-    cbn [sn] in Hn. replace (0 <? lpos (fst s) - lstart (fst s)) with true in Hn by (symmetry; apply Z.ltb_lt; lia).
-    injection Hn as <- <- <-. cbn [lhas lz skip lpos] in *.
-    exact (rawtext_loop_regions c (rawtag l) d l _ s Hc Htb Hi Es Hhas).
-Qed.
 
 (* non-vacuity: <style>a{{x}}b{{y}}c</style> with the Go delimiters: the second region is reached over "a", a region, "b" *)
 Example html_template_rawtext_reach_nonvacuous :
@@ -391,9 +406,9 @@ Proof.
               is_region go_tmpl [60;115;116;121;108;101;62;97;123;123;120;125;125;98;123;123;121;125;125;99;60;47;115;116;121;108;101;62] p q).
   { intros p q Hp Hpre Hq. split; [exact Hp|]. split; [discriminate|]. split; [exact Hpre|exact Hq]. }
   split.
-  - apply rr_byte; [split; [vm_compute; split; [discriminate|reflexivity]|left; split; [vm_compute; discriminate|vm_compute; reflexivity]]|].
+  - apply rr_byte; [split; [vm_compute; split; [discriminate|reflexivity]|split; [vm_compute; reflexivity|left; vm_compute; discriminate]]|].
     apply (rr_region _ _ _ 8 13); [apply R; [lia|vm_compute; reflexivity|vm_compute; reflexivity]|].
-    apply rr_byte; [split; [vm_compute; split; [discriminate|reflexivity]|left; split; [vm_compute; discriminate|vm_compute; reflexivity]]|].
+    apply rr_byte; [split; [vm_compute; split; [discriminate|reflexivity]|split; [vm_compute; reflexivity|left; vm_compute; discriminate]]|].
     apply rr_refl.
   - apply R; [lia|vm_compute; reflexivity|vm_compute; reflexivity].
 Qed.
@@ -403,7 +418,7 @@ Section AttrConverse.
 Variables (c : cfg) (d : list Z) (l0 : lexer).
 Hypothesis Hc : cfg_ok c.
 Hypothesis Htb : tb c <> [].
-Hypothesis Hi : html_inv d l0.
+Hypothesis Hi : binv d (lz l0).
 
 (* the cursor s is at or after the call's cursor; if the flag is set, a region lies between the two *)
 Definition RI (s : lx) (h : bool) : Prop :=
@@ -423,7 +438,8 @@ Proof. unfold has_delims. destruct (tb c); congruence. Qed.
 
 Lemma tmpl_step s z' h : RI s h -> at_ s (tb c) = Ok true -> tmpl_skip c s = Ok z' -> RI z' true.
 Proof.
-  intros [[Hsm Hle] _] Hat Hsk. pose proof Hi as ((Hw & _) & Hlen & _). pose proof (inv_pos0 d l0 Hi) as H0.
+  intros [[Hsm Hle] _] Hat Hsk. pose proof Hi as (Hw & Hlen & _).
+  assert (H0 : 0 <= lpos (lz l0)) by (destruct Hw as (_ & ? & _); lia).
   assert (Ha : lpos s <= len d).
   { apply at_from_buf in Hat; [|exact Htb]. rewrite Z.add_0_r in Hat. destruct Hsm as [Hb _]. rewrite Hb in Hat.
     destruct (tb c) as [|x t] eqn:E; [congruence|]. symmetry in Hat. apply prefixb_head in Hat. destruct Hat as [s' Es].
@@ -431,10 +447,10 @@ Proof.
     assert (E0 : skipz (lpos s) (lbuf (lz l0)) = []) by (unfold skipz; apply skipn_all2; unfold lx_len, len in *; lia).
     congruence. }
   rewrite (same_zat l0 s Hsm) in Hat, Hsk.
-  destruct (zat_wf d l0 (lpos s) Hi ltac:(lia)) as [Hws Hrem].
+  destruct (bzat_wf d l0 (lpos s) Hi ltac:(lia)) as [Hws Hrem].
   rewrite at_rem in Hat by (apply Hc || exact Hws). injection Hat as Hpre.
   destruct (tmpl_skip_here c _ Hc Hws Hpre) as [Hsk' Hle']. rewrite Hsk' in Hsk. injection Hsk as <-.
-  pose proof (region_here c d l0 (lpos s) Hi ltac:(lia) Htb ltac:(rewrite <- Hrem; exact Hpre)) as Hreg.
+  pose proof (bregion_here c d l0 (lpos s) Hi ltac:(lia) Htb ltac:(rewrite <- Hrem; exact Hpre)) as Hreg.
   destruct (is_region_in _ _ _ _ Hreg) as [_ Hlt].
   split; [split; [split; reflexivity|cbn [lpos]; lia]|].
   intros _. exists (lpos s), (region_end_here c (zat l0 (lpos s))). cbn [lpos]. split; [lia|]. split; [lia|exact Hreg].
@@ -486,6 +502,27 @@ Proof.
   clear. intros s x Hs Hx. unfold attru_body in Hx. destruct (pkr s 0) as [c0| |]; cbn [rbind] in Hx; try discriminate.
   destruct ((c0 =? 32) || (c0 =? 62) || (c0 =? 9) || (c0 =? 10) || (c0 =? 13) || (c0 =? 12) || eof0 s c0); injection Hx as <-;
     [exact Hs|eapply samele_trans; [exact Hs|apply samele_mv; lia]].
+Qed.
+
+(* any loop whose first test is l.skipTemplate() keeps the invariant, if its own steps only move forward *)
+Lemma with_tmpl_RI {S R} (cur : S -> lx) (setc : S -> lx -> S) (rcur : R -> lx) (body : S -> res (lp S R)) fuel s h r :
+  (forall s z', cur (setc s z') = z') ->
+  (forall s x, body s = Ok x -> match x with Cont s' => samele (cur s) (cur s') | Brk r => samele (cur s) (rcur r) end) ->
+  RI (cur s) h -> loop fuel (with_tmpl c cur setc body) (s, h) = Ok r -> RI (rcur (fst r)) (snd r).
+Proof.
+  intros Hcs Hb H0 H.
+  refine (with_tmpl_inv c cur setc (fun sh : S * bool => RI (cur (fst sh)) (snd sh)) (fun r : R * bool => RI (rcur (fst r)) (snd r))
+            body _ _ fuel (s, h) r H0 H).
+  - intros s1 h1 z' Hs1 Hat Hk. cbn [fst snd] in *. rewrite Hcs.
+    unfold tmpl_at in Hat. rewrite has_delims_true in Hat. eapply tmpl_step; eauto.
+  - intros s1 h1 x Hs1 Hx. cbn [fst snd] in *. specialize (Hb s1 x Hx). destruct x; cbn [fst snd]; eapply RI_keep; eauto.
+Qed.
+
+Lemma attru_step_samele (s : lx) x : attru_body s = Ok x -> match x with Cont s' => samele s s' | Brk r => samele s r end.
+Proof.
+  intros Hx. unfold attru_body in Hx. destruct (pkr s 0) as [c0| |]; cbn [rbind] in Hx; try discriminate.
+  destruct ((c0 =? 32) || (c0 =? 62) || (c0 =? 9) || (c0 =? 10) || (c0 =? 13) || (c0 =? 12) || eof0 s c0); injection Hx as <-;
+    [apply samele_refl|apply samele_mv; lia].
 Qed.
 
 Lemma attrname_regions fuel s h r : RI s h -> loop fuel (attrname_body c) (s, h) = Ok r -> RI (fst r) (snd r).
@@ -549,8 +586,8 @@ Proof.
         eapply RI_keep; [eapply tmpl_step; eauto|]. apply (tmpl_rep_samele _ _ _ _ Er4).
       + destruct ((c1 =? 34) || (c1 =? 39)).
         * eapply attrq_regions; [|exact Er]. eapply RI_keep; [exact H3|apply samele_mv; lia].
-        * destruct (loop (fuel_of z3) attru_body z3) as [z4| |] eqn:Eu; cbn [rbind] in Er; try discriminate. injection Er as <-. cbn [fst snd].
-          eapply RI_keep; [exact H3|apply (attru_loop_samele _ _ _ Eu)].
+        * unfold with_tmpl_lx in Er.
+          apply (with_tmpl_RI (fun z : lx => z) (fun _ z' => z') (fun z : lx => z) attru_body _ z3 (snd r1) r (fun _ _ => eq_refl) attru_step_samele H3 Er).
     - injection E3 as <- <- _. eapply RI_keep; [exact H2|].
       destruct Hs2 as [[Hb2 Hst2] Hle2]. split; [split; [exact Hb2|exact Hst2]|]. unfold rewind, mark. cbn [lpos]. lia. }
   destruct (tmpl_rep_guarded c z5 has5) as [r6| |] eqn:E6; cbn [rbind] in Hx; try discriminate.
@@ -563,6 +600,54 @@ Proof.
 Qed.
 
 End AttrConverse.
+
+Lemma plaintext_step_samele (s : lx) x : plaintext_body s = Ok x -> match x with Cont s' => samele s s' | Brk r => samele s r end.
+Proof.
+  intros Hx. unfold plaintext_body in Hx. destruct (pkr s 0) as [c0| |]; cbn [rbind] in Hx; try discriminate.
+  destruct (eof0 s c0); injection Hx as <-; [apply samele_refl|apply samele_mv; lia].
+Qed.
+
+Lemma html_template_rawtext_converse_proof : forall c d l ty tk l', cfg_ok c -> tb c <> [] -> html_inv d l ->
+  intag l = false -> rawtag l <> 0 ->
+  lpos (lz l) < len d -> ~ end_tag_at (rawtag l) (d ++ [0]) (lpos (lz l)) ->        (* the content is not empty *)
+  next c l = Ok (ty, tk, l') -> lhas l' = true ->
+  exists p q, lpos (lz l) <= p /\ q <= lpos (lz l') /\ is_region c d p q.
+Proof.
+  intros c d l ty tk l' Hc Htb Hi Hit Hraw Hne Hnoend Hn Hhas.
+  pose proof Hi as (Hl & Hlen & Hsuf & _). pose proof Hl as [Hw _].
+  pose proof (lwf_clean l Hl Hit) as Hcl.
+  assert (H0 : 0 <= lpos (lz l)) by (destruct Hw as (_ & ? & _); lia).
+  unfold next in Hn. cbn [lz rawtag intag lerr ltext lattr lhas] in Hn. rewrite Hit in Hn.
+  replace (negb (rawtag l =? 0)) with true in Hn by (symmetry; apply negb_true_iff; apply Z.eqb_neq; exact Hraw).
+  unfold shift_rawtext in Hn.
+  destruct (rawtag l =? html_hash_Plaintext) eqn:Epl.
+  - destruct (safe_inv _ _ (plaintext_loop_spec c (lz l) false Hc Hw)) as ([zp hp] & Ez & Ha). rewrite Ez in Hn. cbn [rbind fst snd] in Hn, Ha.
+    pose proof (plaintext_loop_run _ _ _ _ _ Ez) as Hend. cbn [fst] in Hend. apply at_end_true in Hend; [|eauto using adv_wf].
+    rewrite (adv_len _ _ Ha), Hlen in Hend.
+    unfold with_tmpl_lx in Ez.
+    pose proof (with_tmpl_RI c d l Hc Htb (binv_of_inv d l Hi) (fun z : lx => z) (fun _ z' => z') (fun z : lx => z) plaintext_body _ (lz l) false (zp, hp)
+                  (fun _ _ => eq_refl) plaintext_step_samele (conj (samele_refl _) (fun E => False_ind _ (Bool.diff_false_true E))) Ez) as [_ Hreg].
+    rewrite shiftv_spec in Hn by eauto using adv_wf. cbn [rbind fst snd] in Hn, Hreg.
+    destruct Ha as (A1 & A2 & A3). cbn [sn] in Hn.
+    replace (0 <? lpos zp - lstart zp) with true in Hn by (symmetry; apply Z.ltb_lt; lia).
+    injection Hn as <- <- <-. cbn [lhas lz skip lpos] in *. exact (Hreg Hhas).
+  - destruct (safe_inv _ _ (rawtext_loop_spec c (rawtag l) (lz l) false Hc Hw)) as (s & Es & Ha). rewrite Es in Hn. cbn [rbind] in Hn.
+    destruct (rawtext_loop_run _ _ _ _ _ _ Es) as (_ & _ & Hend & _).
+    rewrite shiftv_spec in Hn by eauto using adv_wf. cbn [rbind fst snd] in Hn.
+    pose proof Ha as (A1 & A2 & A3). rewrite Hlen in A3.
+    assert (Hlt : lpos (lz l) < lpos (fst s)).
+    { destruct (Z.eq_dec (lpos (fst s)) (lpos (lz l))) as [E|E]; [exfalso|lia].
+      destruct Hend as [Hend|Hend].
+      - apply at_end_true in Hend; [|eauto using adv_wf]. rewrite (adv_len _ _ Ha), Hlen in Hend. lia.
+      - apply Hnoend. rewrite <- E.
+        assert (Hblen : len (lbuf (lz l)) = len (d ++ [0])).
+        { pose proof (lx_wf_len _ Hw) as [Hbl _]. rewrite len_app. change (len [0]) with 1. lia. }
+        eapply (end_tag_at_ext true _ _ _ (lpos (lz l))); eauto. lia. }
+    cbn [sn] in Hn. replace (0 <? lpos (fst s) - lstart (fst s)) with true in Hn by (symmetry; apply Z.ltb_lt; lia).
+    injection Hn as <- <- <-. cbn [lhas lz skip lpos] in *.
+    exact (rawtext_loop_regions c (rawtag l) d l _ s Hc Htb Hi Es Hhas).
+Qed.
+
 
 Lemma html_template_attr_converse_proof : forall c d l v l', cfg_ok c -> tb c <> [] -> html_inv d l -> intag l = true ->
   next c l = Ok (AttributeT, Some v, l') -> lhas l' = true ->
@@ -579,29 +664,13 @@ Proof.
   destruct isattr.
   - match type of Hn with rbind ?e _ = _ => destruct e as [[v1 l1]| |] eqn:Ea end; cbn [rbind] in Hn; try discriminate.
     cbn [fst snd] in Hn. injection Hn as _ <-.
-    eapply (shift_attribute_regions c d l Hc Htb Hi _ z1 v1 l1); [|exact Ea|exact Hhas].
+    eapply (shift_attribute_regions c d l Hc Htb (binv_of_inv d l Hi) _ z1 v1 l1); [|exact Ea|exact Hhas].
     cbn [lhas]. split; [exact Hs1|discriminate].
   - match type of Hn with rbind ?e _ = _ => destruct e as [s| |] end; cbn [rbind] in Hn; try discriminate.
     destruct (c0 =? 47); discriminate.
 Qed.
 
 (* ---- (iv'') a region further inside an attribute name ----------------------------------------------------------------- *)
-(* the delimiter and the region at position p of the input, as the cursor sees them *)
-Lemma tmpl_here c d l p q : cfg_ok c -> html_inv d l -> lpos (lz l) <= p -> is_region c d p q ->
-  at_ (zat l p) (tb c) = Ok true /\ tmpl_skip c (zat l p) = Ok (zat l q) /\ p < q <= len d.
-Proof.
-  intros Hc Hi Ha Hreg. destruct (is_region_in _ _ _ _ Hreg) as [Hin Hlt]. pose proof (inv_pos0 d l Hi) as Hp0.
-  pose proof Hreg as (_ & Htb & Hpre & _).
-  assert (Hlt0 : 0 < len (tb c)) by (destruct (tb c) as [|x t]; [congruence|rewrite len_cons; pose proof (len_nonneg t); lia]).
-  destruct (zat_wf d l p Hi ltac:(lia)) as [Hw Hrem].
-  assert (Hpre' : prefixb (tb c) (rem (zat l p)) = true) by (rewrite Hrem; exact Hpre).
-  destruct (tmpl_skip_here c (zat l p) Hc Hw Hpre') as [Hsk Hle].
-  assert (Eq : region_end_here c (zat l p) = q).
-  { eapply is_region_fun; [|exact Hreg]. apply region_here; [exact Hi|lia|exact Htb|exact Hpre]. }
-  rewrite Eq in *. pose proof Hi as (_ & Hlen & _).
-  split; [rewrite at_rem by (apply Hc || exact Hw); rewrite Hpre'; reflexivity|].
-  split; [exact Hsk|unfold lx_len, zat in *; cbn [lbuf] in *; lia].
-Qed.
 
 (* a byte of an attribute name at which no delimiter starts *)
 Definition name_plain (c : cfg) (d : list Z) (i : Z) : Prop :=
@@ -670,6 +739,19 @@ Proof.
     destruct (eof0 z c0); injection Hx as <-; cbn [fst snd]; [exact Hs|]. eapply done_keep; [exact Hs|apply samele_mv; lia].
 Qed.
 
+Lemma with_tmpl_done {S R} c z0 q (cur : S -> lx) (setc : S -> lx -> S) (rcur : R -> lx) (body : S -> res (lp S R)) fuel s r :
+  (forall s z', cur (setc s z') = z') ->
+  (forall s x, body s = Ok x -> match x with Cont s' => samele (cur s) (cur s') | Brk r => samele (cur s) (rcur r) end) ->
+  done_at z0 q (cur s) true -> loop fuel (with_tmpl c cur setc body) (s, true) = Ok r -> done_at z0 q (rcur (fst r)) (snd r).
+Proof.
+  intros Hcs Hb H0 H.
+  refine (with_tmpl_inv c cur setc (fun sh : S * bool => done_at z0 q (cur (fst sh)) (snd sh)) (fun r : R * bool => done_at z0 q (rcur (fst r)) (snd r))
+            body _ _ fuel (s, true) r H0 H).
+  - intros s1 h1 z' Hs1 _ Hk. cbn [fst snd] in *. rewrite Hcs. destruct Hs1 as (S1 & S2 & S3).
+    pose proof (tmpl_skip_run _ _ _ Hk) as Hkr. split; [eapply samele_trans; eauto|]. split; [reflexivity|destruct Hkr; lia].
+  - intros s1 h1 x Hs1 Hx. cbn [fst snd] in *. specialize (Hb s1 x Hx). destruct x; cbn [fst snd]; eapply done_keep; eauto.
+Qed.
+
 Lemma guarded_done c z0 q z r0 : done_at z0 q z true -> tmpl_rep_guarded c z true = Ok r0 -> done_at z0 q (fst r0) (snd r0).
 Proof.
   intros H0 H. unfold tmpl_rep_guarded in H. destruct (has_delims c); [|injection H as <-; exact H0].
@@ -709,8 +791,8 @@ Proof.
         eapply done_keep; [exact H3|]. eapply samele_trans; [apply (tmpl_skip_run _ _ _ Ek)|apply (tmpl_rep_samele _ _ _ _ _ Er4)].
       + destruct ((c1 =? 34) || (c1 =? 39)).
         * eapply attrq_done; [|exact Er]. eapply done_keep; [exact H3|apply samele_mv; lia].
-        * destruct (loop (fuel_of z3) attru_body z3) as [z4| |] eqn:Eu; cbn [rbind] in Er; try discriminate. injection Er as <-. cbn [fst snd].
-          eapply done_keep; [exact H3|apply (attru_loop_samele _ _ _ Eu)].
+        * unfold with_tmpl_lx in Er.
+          apply (with_tmpl_done c z0 q (fun z : lx => z) (fun _ z' => z') (fun z : lx => z) attru_body _ z3 r (fun _ _ => eq_refl) attru_step_samele H3 Er).
     - injection E3 as <- <- _. eapply done_keep; [exact H1|].
       destruct Hs2 as [[Hb2 Hst2] Hle2]. split; [split; [exact Hb2|exact Hst2]|]. unfold rewind, mark. cbn [lpos]. lia. }
   assert (Hh5 : has5 = true) by apply H5. subst has5.
@@ -1019,16 +1101,15 @@ Proof.
   lia.
 Qed.
 
-(* non-vacuity of the two further steps: <script>a</b<!-- c -->{{y}}</script> : from 8 over "a", "</b", the section, to the region at 21 *)
+(* non-vacuity of the further step: <script>a</b{{y}}</script> : from 8 over "a" and "</b" to the region at 12 *)
 Example html_template_rawtext_reach_nonvacuous2 :
-  let d := [60;115;99;114;105;112;116;62; 97; 60;47;98; 60;33;45;45;32;99;32;45;45;62; 123;123;121;125;125; 60;47;115;99;114;105;112;116;62] in
-  raw_reach go_tmpl html_hash_Script d 8 22 /\ is_region go_tmpl d 22 27.
+  let d := [60;115;99;114;105;112;116;62; 97; 60;47;98; 123;123;121;125;125; 60;47;115;99;114;105;112;116;62] in
+  raw_reach go_tmpl html_hash_Script d 8 12 /\ is_region go_tmpl d 12 17.
 Proof.
   split.
-  - apply rr_byte; [split; [vm_compute; split; [discriminate|reflexivity]|left; split; [vm_compute; discriminate|vm_compute; reflexivity]]|].
-    apply rr_endtag; [vm_compute; reflexivity|vm_compute; reflexivity|vm_compute; reflexivity|].
-    change (9 + 2 + len (letter_run (skipz (9 + 2) [60;115;99;114;105;112;116;62; 97; 60;47;98; 60;33;45;45;32;99;32;45;45;62; 123;123;121;125;125; 60;47;115;99;114;105;112;116;62]))) with 12.
-    apply (rr_section _ _ _ 12 6); [reflexivity|vm_compute; reflexivity|vm_compute; reflexivity|vm_compute; reflexivity|vm_compute; reflexivity|vm_compute; reflexivity|].
+  - apply rr_byte; [split; [vm_compute; split; [discriminate|reflexivity]|split; [vm_compute; reflexivity|left; vm_compute; discriminate]]|].
+    apply rr_endtag; [vm_compute; reflexivity|vm_compute; reflexivity|vm_compute; reflexivity|vm_compute; reflexivity|].
+    change (9 + 2 + len (letter_run (skipz (9 + 2) [60;115;99;114;105;112;116;62; 97; 60;47;98; 123;123;121;125;125; 60;47;115;99;114;105;112;116;62]))) with 12.
     apply rr_refl.
   - split; [lia|]. split; [discriminate|]. split; vm_compute; reflexivity.
 Qed.
